@@ -1210,7 +1210,23 @@ func iohelpStreamWidths(c *core.Ctx, p *load.Prog, rule string) {
 			}
 		}
 		loopOK, loopUnsure := f.fillsByLoop("er.Reader", "b")
-		if !ok && loopUnsure {
+		// any further Read called on the underlying reader itself is a single raw
+		// read beside the filling one: it may return fewer bytes than asked for,
+		// none with a nil error, or the last ones together with io.EOF
+		raw := 0
+		var rawPos token.Pos
+		for _, call := range f.calls() {
+			if sel, isSel := ast.Unparen(call.Fun).(*ast.SelectorExpr); isSel && sel.Sel.Name == "Read" && (f.canon(sel.X) == "er.Reader" || f.isAliasOf(sel.X, "er.Reader")) {
+				raw++
+				rawPos = call.Pos()
+			}
+		}
+		if loopOK {
+			raw--
+		}
+		if (ok || loopOK) && raw > 0 {
+			c.Check(rule, "ErrorReader.Read fills the whole destination (io.ReadFull)", f.pos(), false, "besides the filling read, ErrorReader.Read calls Read on the underlying reader directly at "+f.p.Pos(rawPos)+": that path takes whatever a single Read returns (fewer bytes than asked for, none with a nil error, or the last byte together with io.EOF) as the outcome of the whole read")
+		} else if !ok && loopUnsure {
 			c.Undecide("iohelp.ErrorReader.Read fills its destination with a loop the rule cannot follow (another way out of the loop, the counter written elsewhere, or a read that does not start where the last one ended)")
 		} else {
 			c.Check(rule, "ErrorReader.Read fills the whole destination (io.ReadFull)", f.pos(), ok || loopOK, "ErrorReader.Read must be io.ReadFull(er.Reader, b), or a loop that reads into b[n:] until n reaches len(b): ReadString/ReadGUID/byte arrays call it directly and rely on it absorbing short reads")
@@ -1266,6 +1282,7 @@ type strFact struct {
 func checkedString(c *core.Ctx, p *load.Prog, rule string, top *ioFn) {
 	name := top.name
 	// linear form of an integer expression over len(<[]byte>) and <uint32 value>
+	linBusy := map[types.Object]bool{}
 	var lin func(g *ioFn, e ast.Expr) (strFact, bool)
 	lin = func(g *ioFn, e ast.Expr) (strFact, bool) {
 		e = ast.Unparen(e)
@@ -1277,6 +1294,12 @@ func checkedString(c *core.Ctx, p *load.Prog, rule string, top *ioFn) {
 			if wire.Canon(x.Fun) == "len" && len(x.Args) == 1 {
 				if t := g.info.TypeOf(x.Args[0]); t != nil && t.String() == "[]byte" {
 					return strFact{L: 1, wide: true}, true
+				}
+			}
+			// the length read where it is used
+			if wire.Canon(x.Fun) == "ReadUint32Bytes" && len(x.Args) == 1 {
+				if t := g.info.TypeOf(x.Args[0]); t != nil && t.String() == "[]byte" {
+					return strFact{S: 1, wide: true}, true
 				}
 			}
 			if tv, ok := g.info.Types[x.Fun]; ok && tv.IsType() && len(x.Args) == 1 {
@@ -1291,6 +1314,33 @@ func checkedString(c *core.Ctx, p *load.Prog, rule string, top *ioFn) {
 				return inner, true
 			}
 		case *ast.Ident:
+			// a local of another integer type defined once from an expression
+			// (end := int(sz) + 4) stands for that expression
+			if o := g.info.ObjectOf(x); o != nil {
+				var def ast.Expr
+				defs := 0
+				ast.Inspect(g.fd.Body, func(k ast.Node) bool {
+					if as, ok := k.(*ast.AssignStmt); ok && len(as.Lhs) == len(as.Rhs) {
+						for i, l := range as.Lhs {
+							if lid, ok := ast.Unparen(l).(*ast.Ident); ok && g.info.ObjectOf(lid) == o {
+								defs++
+								def = as.Rhs[i]
+							}
+						}
+					}
+					return true
+				})
+				if defs == 1 && !linBusy[o] {
+					if _, isCall := ast.Unparen(def).(*ast.CallExpr); !isCall || wire.Canon(ast.Unparen(def).(*ast.CallExpr).Fun) != "ReadUint32Bytes" {
+						linBusy[o] = true
+						r, ok := lin(g, def)
+						delete(linBusy, o)
+						if ok {
+							return r, true
+						}
+					}
+				}
+			}
 			if t := g.info.TypeOf(x); t != nil {
 				if b, ok := t.Underlying().(*types.Basic); ok && b.Kind() == types.Uint32 {
 					return strFact{S: 1, wide: true}, true
